@@ -277,15 +277,18 @@ func (l *Listener) talk(a string, n *com.Packet) (*conn, bool, error) {
 	var (
 		i     = n.Device.Hash()
 		s, ok = l.s.sessions[i]
+		// The table is keyed by the 32-bit hash: an entry with a different ID
+		// belongs to another device and must not be used (or replaced) here.
+		x = ok && s.ID != n.Device
 	)
-	if l.s.lock.RUnlock(); !ok {
+	if l.s.lock.RUnlock(); !ok || x {
 		if n.Empty() && n.ID == SvHello {
 			if cout.Enabled {
 				l.log.Error("[%s:%s] %s: Received an empty hello Packet!", l.name, n.Device, a)
 			}
 			return nil, false, ErrMalformedPacket
 		}
-		if n.ID != SvHello {
+		if n.ID != SvHello || x {
 			if cout.Enabled {
 				l.log.Warning("[%s:%s] %s: Received a non-hello Packet from a unregistered client!", l.name, n.Device, a)
 			}
@@ -376,9 +379,11 @@ func (l *Listener) talkSub(a string, n *com.Packet, o bool) (connHost, uint32, *
 	var (
 		i     = n.Device.Hash()
 		s, ok = l.s.sessions[i]
+		// See talk: never use (or replace) the entry of another device.
+		x = ok && s.ID != n.Device
 	)
-	if l.s.lock.RUnlock(); !ok {
-		if n.ID != SvHello {
+	if l.s.lock.RUnlock(); !ok || x {
+		if n.ID != SvHello || x {
 			if cout.Enabled {
 				l.log.Warning("[%s:%s/M] %s: Received a non-hello Packet from a unregistered client!", l.name, n.Device, a)
 			}
